@@ -19,6 +19,7 @@ import traceback
 
 ROOT = os.path.dirname(os.path.dirname(os.path.abspath(__file__)))
 REPO = os.environ.get('VERIF_REPO', '/repo')
+OUT = os.environ.get('VERIF_OUT', ROOT)        # evidence/ and replays/ go here (mutant sweeps use a scratch directory)
 
 
 def _sig(harness, f):
@@ -58,7 +59,7 @@ def load_known():
 
 
 def write_replay(prop, modname, hname, hargs, f, sig):
-    d = os.path.join(ROOT, 'replays', prop)
+    d = os.path.join(OUT, 'replays', prop)
     os.makedirs(d, exist_ok=True)
     payload = {'property': prop, 'module': modname, 'harness': hname, 'args': hargs, 'choices': f['choices'],
                'values': f['values'], 'label': f['label'], 'signature': sig, 'detail': f.get('detail', ''),
@@ -294,8 +295,8 @@ def main(argv=None):
         'wall_s': round(time.time() - t0, 2),
         'violations': len(violations),
     }
-    os.makedirs(os.path.join(ROOT, 'evidence'), exist_ok=True)
-    with open(os.path.join(ROOT, 'evidence', f'{prop}.json'), 'w') as fh:
+    os.makedirs(os.path.join(OUT, 'evidence'), exist_ok=True)
+    with open(os.path.join(OUT, 'evidence', f'{prop}.json'), 'w') as fh:
         json.dump(ev, fh, indent=1, default=str)
 
     print(f"[{prop} {a.tier}] paths={evaluations} nontrivial={nontrivial} queries={ev['coverage']['solver_queries']} "
